@@ -213,11 +213,11 @@ def RoundTripStatement : Prop :=
 /-- **roundtrip_partial** (T2 on the fragment `Ty.frag`: primitives, alias references with or
     without type arguments (`'t`, `'t<a, b>`) — INCLUDING the argument-less ones named
     `int`/`bin`/`ref`, printed `<'int>` resp. `(<'int>)` by the
-    repairs dea6b02 / b32cfa9 —, `^` and `^N`, resources, the module's own default type `'` / `'<a, b>`, tuples and PARTIAL types — named or not, with named or positional
+    repairs dea6b02 / b32cfa9 —, `^` and `^N`, resources, the module's own default type `'` / `'<a, b>`, module types `'%m/n.t<a>`, tuples and PARTIAL types — named or not, with named or positional
     fields —, function types, unions and intersections, nested WITHOUT BOUND):
     the parser's model reads the printed text back to exactly the same AST and stops exactly at
     `rest`. Missing cases (the full statement is `RoundTripStatement`): spread fields and
-    `'alias[...]` tuples, process types, module types `'%m/n.t<…>`. For
+    `'alias[...]` tuples, process types. For
     these the statement is evaluated on generated ASTs of every constructor by the harness (search,
     not proof). -/
 theorem roundtrip_partial (t : Ty) (hw : WFType t) (hf : t.frag = true) (rest : Str)
@@ -286,6 +286,17 @@ def exampleTy4 : Ty :=
 example : printTy exampleTy4 = "'tree<'k, ((#'<'k> -> ') | ^1)>".toList := by decide +kernel
 example : parseType (printTy exampleTy4 ++ ", x".toList) = .ok exampleTy4 ", x".toList :=
   roundtrip_partial exampleTy4 (by decide +kernel) (by decide +kernel) _ (by decide +kernel)
+
+/-- module types: `['%list<'int>, '%a/b?.c!, '%m.t<'%n>]` -/
+def exampleTy5 : Ty :=
+  .tuple none [.field none (.modty ["list".toList] none [.prim .int]),
+    .field none (.modty ["a".toList, "b?".toList] (some "c!".toList) []),
+    .field none (.modty ["m".toList] (some "t".toList) [.modty ["n".toList] none []])] false
+
+example : printTy exampleTy5 = "['%list<'int>, '%a/b?.c!, '%m.t<'%n>]".toList := by decide +kernel
+example : parseType (printTy exampleTy5) = .ok exampleTy5 [] := by
+  have := roundtrip_partial exampleTy5 (by decide +kernel) (by decide +kernel) [] (by decide +kernel)
+  simpa using this
 
 /-- the side condition is necessary: behind a bare tuple name, a line that starts with `(` makes the
     whole alias unreadable (defect D2, repaired in the formatter by 63d9fac) -/
